@@ -10,7 +10,7 @@ ID = 'C01'
 LEVEL = 'exploration'
 NEEDS = ('threads', 'proc')
 PROC_READY = True
-QUICK = dict(runs=9000, wall=80)
+QUICK = dict(runs=27000, wall=85)
 THOROUGH = dict(runs=500000, wall=1200)
 RULE = ('scenario = n<=24 unique inputs (opaque iterator, list, tuple, range or generator), per-element virtual service time in {0,1,2,5,20ms} (so every completion order is reachable), '
         'failing subset, flags return_x/return_exceptions, optional preprocessor rejecting a subset, concurrency 1..4, capacity in '
